@@ -22,11 +22,32 @@ def main():
     seed = int(os.environ.get("VERIF_SEED", "0") or 0)
     rep = lib.Report(pid, tier, seed)
 
-    ok, log = coqaudit.build()
-    proof = coqaudit.audit(pid) if ok else {
-        "obligations": 1, "discharged": 0, "theorems": [], "axioms": [],
-        "broken": ["build failed: " + log[-1500:]], "checker_cmd": "/verif/build.sh", "trusted_base": coqaudit.TRUSTED_BASE}
     mod = importlib.import_module(pid.lower())
+    # Hook: a property module may regenerate Coq sources from the working tree (trace translator /
+    # table extractor, coq/Gen/*.v) BEFORE the build.  pregen() must write a file that fails to check
+    # (never a stale or default one) when it cannot interpret the source, and must not raise for that.
+    if hasattr(mod, "pregen"):
+        try:
+            mod.pregen()
+        except Exception:  # noqa: BLE001
+            traceback.print_exc()
+            print("HARNESS-ERROR property=%s (pregen)" % pid)
+            sys.exit(2)
+    ok, log = coqaudit.build()
+    if ok:
+        proof = coqaudit.audit(pid)
+    else:
+        # build.sh keeps going (make -k): a file that belongs to another property may be what failed.
+        # Props/<pid>.v compiles only if every one of its dependencies was rebuilt from the current
+        # sources (failed targets are deleted), so a clean audit means this property's proofs stand.
+        proof = coqaudit.audit(pid)
+        if proof["broken"] or not os.path.exists(os.path.join(coqaudit.VERIF, "ocaml", "driver")) \
+                or not coqaudit.extraction_current():
+            proof["broken"] = ["build failed: " + log[-1500:]] + proof["broken"]
+            proof["discharged"] = 0
+        else:
+            ok = True
+            rep.notes.append("another part of the Coq build failed; this property's files and the extraction built")
     model = None
     try:
         if ok:
